@@ -20,6 +20,9 @@ func worldGroups(w *World) {
 	token := "grp-token"
 	tcpMux := w.KnobBool("tcp_mux", 50)
 	kind := []string{"tcp", "http", "tcpmux"}[w.Knob("group_kind", 0, 2)]
+	if w.In.Property == "C07" && kind == "tcp" {
+		kind = []string{"http", "tcpmux"}[w.In.Seed%2] // password protection exists for these two only
+	}
 	port0 := kind == "tcp" && w.KnobBool("server_chosen_port", 30)
 	scfg := map[string]any{
 		"bindAddr": "10.0.0.1", "bindPort": 7000, "vhostHTTPPort": 8080, "tcpmuxHTTPConnectPort": 7005,
@@ -56,8 +59,28 @@ func worldGroups(w *World) {
 	}
 	realPort := 0
 	members := map[string]*lcClient{} // proxy name -> client
+	// password protection of group members (http, tcpmux): every member may come with its own credentials; the
+	// group's endpoint carries those of the member that created it. Whatever the server makes of members whose
+	// credentials differ (refuse the join, or admit it), a member configured with credentials must never be handed a
+	// request that did not carry exactly these (C07).
+	type cred struct{ u, p string }
+	credChoices := []cred{{}, {"alice", "pw-a"}, {"alice", "pw-b"}, {"bob", "pw-a"}}
+	withCreds := w.KnobBool("member_credentials", 40) || w.In.Property == "C07"
+	withCreds = withCreds && kind != "tcp"
+	mcreds := map[string]cred{}
+	var groupCreds cred
+	nextCreds := cred{} // credentials of the next join request built by mkReq
+	authz := func(c cred) string {
+		if c == (cred{}) {
+			return ""
+		}
+		return basic(c.u, c.p)
+	}
 	mkReq := func(name, key string, variant int) M {
 		f := M{"proxy_name": name, "group": gname, "group_key": key}
+		if nextCreds != (cred{}) && kind != "tcp" {
+			f["http_user"], f["http_pwd"] = nextCreds.u, nextCreds.p
+		}
 		switch kind {
 		case "tcp":
 			f["proxy_type"] = "tcp"
@@ -90,7 +113,7 @@ func worldGroups(w *World) {
 		c.WaitMsg(10*time.Second, func(m RecvMsg) bool { return m.Seq >= from && m.Type == tPong })
 	}
 	// probe returns who served ("" if refused/404) and whether the endpoint exists
-	probe := func() (served string, up bool, detail string) {
+	probeAs := func(pc cred) (served string, up bool, detail string) {
 		switch kind {
 		case "tcp":
 			if realPort == 0 {
@@ -99,7 +122,7 @@ func worldGroups(w *World) {
 			res := env.probeTCP(fmt.Sprintf("10.0.0.1:%d", realPort), 8*time.Second)
 			return res.ServedBy, !res.Refused, fmt.Sprint(res.Err)
 		case "http":
-			sb, st, err := env.probeHTTP(domain, "/", 8*time.Second)
+			sb, st, err := env.probeHTTPAuth(domain, "/", authz(pc), 8*time.Second)
 			return sb, st == 200, fmt.Sprintf("status %d err %v", st, err)
 		default:
 			ip := fmt.Sprintf("10.0.3.%d", 1+env.userIP%250)
@@ -109,7 +132,11 @@ func worldGroups(w *World) {
 				return "", false, err.Error()
 			}
 			defer conn.Close()
-			fmt.Fprintf(conn, "CONNECT %s:443 HTTP/1.1\r\nHost: %s:443\r\n\r\n", domain, domain)
+			ah := ""
+			if a := authz(pc); a != "" {
+				ah = "Proxy-Authorization: " + a + "\r\n"
+			}
+			fmt.Fprintf(conn, "CONNECT %s:443 HTTP/1.1\r\nHost: %s:443\r\n%s\r\n", domain, domain, ah)
 			conn.SetReadDeadline(time.Now().Add(8 * time.Second))
 			br := bufio.NewReader(conn)
 			hdr, err := readUntil(br, "\r\n\r\n", 4096)
@@ -166,6 +193,29 @@ func worldGroups(w *World) {
 		}
 		if served != sib.Name+"/s0" && served != sib.Name+"/s1" {
 			viol("serve", "sibling-group-stranded", "%s: another group with two live members on the same host (other http user / next port) was not served: got %q (%s); history: %v", when, served, detail, history)
+		}
+	}
+	// the users of the membership oracles present the credentials the group's endpoint was created with
+	probe := func() (string, bool, string) { return probeAs(groupCreds) }
+	// credProbe (C07): a request with drawn credentials; whoever serves it must have been configured with exactly these
+	credProbe := func(when string) {
+		if !withCreds || len(members) == 0 {
+			return
+		}
+		w.Check("C07.group-member-reached-only-with-its-credentials")
+		pc := credChoices[r.Intn(len(credChoices))]
+		if r.Intn(2) == 0 {
+			pc = groupCreds // what opens the group's endpoint
+		}
+		served, _, _ := probeAs(pc)
+		if served == "" {
+			return
+		}
+		for n, c := range members {
+			if c.Name+"/"+n == served && mcreds[n] != (cred{}) && mcreds[n] != pc {
+				w.Violate("C07", "auth", "group-member-reached-without-its-credentials", "%s: a %s request carrying credentials %q:%q was handed to group member %s, which is configured with %q:%q (the group was created with %q:%q); history: %v",
+					when, kind, pc.u, pc.p, served, mcreds[n].u, mcreds[n].p, groupCreds.u, groupCreds.p, history)
+			}
 		}
 	}
 	memberIDs := func() []string {
@@ -311,9 +361,34 @@ func worldGroups(w *World) {
 				variant = 1
 			}
 			before := memberIDs()
+			jc := groupCreds
+			if withCreds && (len(members) == 0 || r.Intn(2) == 0) {
+				jc = credChoices[r.Intn(len(credChoices))]
+			}
+			if !withCreds {
+				jc = cred{}
+			}
+			nextCreds = jc
 			ok := join(c, name, key, variant)
+			nextCreds = cred{}
 			w.Check("C13.join-iff-key-and-params")
 			mustOK := key == gkey && variant == 0
+			if len(members) > 0 && jc != groupCreds {
+				// credentials that differ from the group's: the statement of C13 does not say whether they are endpoint
+				// parameters; either outcome is taken, what matters is who gets served afterwards
+				w.Probe("groups.join_with_other_credentials")
+				if ok && mustOK {
+					members[name], mcreds[name] = c, jc
+					for j := 0; j < 2*len(members); j++ {
+						credProbe("after-join-with-other-credentials")
+					}
+				} else if ok {
+					viol("join", "invalid-join-accepted", "join with key=%s variant=%d accepted into group with members %v; history: %v", key, variant, before, history)
+					c.CloseProxy(name)
+					syncCtl(c)
+				}
+				continue
+			}
 			if len(members) == 0 {
 				// creating the group: any key/params are the group's own... but we only track the canonical group
 				if !mustOK {
@@ -335,7 +410,10 @@ func worldGroups(w *World) {
 				continue
 			}
 			if ok {
-				members[name] = c
+				if len(members) == 0 {
+					groupCreds = jc
+				}
+				members[name], mcreds[name] = c, jc
 			} else if len(before) > 0 {
 				// refused join leaves the group unchanged
 				checkProbe("after-refused-join")
@@ -356,7 +434,9 @@ func worldGroups(w *World) {
 			c.CloseProxy(n)
 			syncCtl(c)
 			delete(members, n)
+			delete(mcreds, n)
 			checkProbe("after-leave")
+			credProbe("after-leave")
 			recreate("after-leave")
 		case k < 13: // session drop
 			hist("%s.drop", c.Name)
@@ -381,6 +461,7 @@ func worldGroups(w *World) {
 			recreate("after-session-drop")
 		case k < 17:
 			checkProbe("steady")
+			credProbe("steady")
 		case k < 18: // http rotation over stable members
 			if kind != "http" || len(members) < 2 {
 				continue
@@ -431,7 +512,10 @@ func worldGroups(w *World) {
 			var got bool
 			wg.Add(2)
 			go func() { defer wg.Done(); last.CloseProxy(lastName); syncCtl(last) }()
-			go func() { defer wg.Done(); rr, got = joiner.register(mkReq(jname, gkey, 0)) }()
+			nextCreds = groupCreds
+			raceReq := mkReq(jname, gkey, 0)
+			nextCreds = cred{}
+			go func() { defer wg.Done(); rr, got = joiner.register(raceReq) }()
 			wg.Wait()
 			hist("  -> %s", jsonStr(rr))
 			delete(members, lastName)
@@ -440,13 +524,16 @@ func worldGroups(w *World) {
 				if kind == "tcp" {
 					realPort = portOf(mstr(rr, "remote_addr"))
 				}
-				members[jname] = joiner
+				members[jname], mcreds[jname] = joiner, groupCreds
 				checkProbe("after-race-join-accepted")
 			} else {
 				checkProbe("after-race-join-refused")
 				// the group can be created again immediately
-				if join(joiner, jname, gkey, 0) {
-					members[jname] = joiner
+				nextCreds = groupCreds
+				okj := join(joiner, jname, gkey, 0)
+				nextCreds = cred{}
+				if okj {
+					members[jname], mcreds[jname] = joiner, groupCreds
 					checkProbe("after-recreate")
 				} else {
 					viol("lifecycle", "cannot-recreate-after-last-leave", "group could not be created again after its last member left; history: %v", history)
